@@ -492,10 +492,13 @@ impl DmlExecutor {
 
             if let Some(modified) = modified_columns.as_ref() {
                 // Skip indexes not affected by this update
+                // `modified` holds value indices (column index minus the key columns), the index
+                // lists column indices
+                let num_keys = table_schema.num_keys();
                 let index_affected = index
                     .indexed_column_ids()
                     .iter()
-                    .any(|col| modified.contains(col));
+                    .any(|col| col.checked_sub(num_keys).is_some_and(|v| modified.contains(&v)));
 
                 if !index_affected {
                     continue;
